@@ -701,6 +701,32 @@ def g_level(ck: Check, rule: str) -> None:
               f"a node of the current level is skipped (its successors are never enqueued): {why}; permitted: "
               f"{' | '.join(logic.show(a_)[:70] for a_ in allowed) or 'never'}. "
               f"Nodes below it stay unexplored although the expansion reports completion", key="node-level skips")
+        # a successor scheduled by position (`next_level.add(successors[0])`) stands for the whole list only where the list is
+        # known to have exactly that many elements
+        for c_ in ast.walk(loop):
+            if isinstance(c_, ast.Call) and isinstance(c_.func, ast.Attribute) and c_.func.attr in ("add", "append") and len(c_.args) == 1 \
+                    and isinstance(c_.args[0], ast.Subscript) and isinstance(c_.args[0].value, ast.Name) \
+                    and isinstance(c_.args[0].slice, ast.Constant) and c_.args[0].slice.value == 0:
+                Lk = c_.args[0].value.id
+                dL = fm.single_def(Lk, fm.cfgn(c_))
+                for _ in range(3):      # `successors = sorted(successors)` keeps the elements
+                    if dL and dL[1] is not None and isinstance(unwrap_order(dL[1]), ast.Name) and unwrap_order(dL[1]) is not dL[1]:
+                        dL = fm.single_def(unwrap_order(dL[1]).id, dL[0])
+                if not (dL and isinstance(dL[1], ast.Call) and callee_name(dL[1]) == "node_successors"):
+                    continue
+                t_ = f"len({Lk})"
+                tr_ = logic.Translator(lambda e: text(e), numeric={t_})
+                fs_ = []
+                for test, pol, b in fm.facts(fm.cfgn(c_)):
+                    ff = tr_.f(test)
+                    fs_.append(ff if pol else logic.Not(ff))
+                try:
+                    ok1 = bool(fs_) and logic.implies(logic.And(*fs_), logic.And(logic.Le(t_, "1"), logic.Le("1", t_)))
+                except logic.TooBig:
+                    ok1 = False
+                ck.ob(rule, fm, fm.f.stmt_of(c_), ok1, f"`{Lk}[0]` is scheduled where `{Lk}` has exactly one element" if ok1 else
+                      f"only `{Lk}[0]` is scheduled although `{Lk}` may hold more successors here: the others are never expanded "
+                      f"and the expansion still reports completion", key=f"successor scheduled by position: {Lk}")
         for n in ast.walk(loop):
             if isinstance(n, ast.Break) and fm.cfg.enclosing_loops(fm.cfgn(n))[0] is loop:
                 # leaving the level early is fine when the driver then reports failure: no feasible path back into the loop,
